@@ -439,7 +439,28 @@ def run_c08(ctx):
         cases.append(ctx.case("mut", gen.mutate(rng.choice(texts), rng, texts), gen.random_cfg(rng), meta={"invalid": True}))
     for _ in range(ctx.n(300, 6000)):
         cases.append(ctx.case("soup", gen.soup(rng, 1, 12), gen.random_cfg(rng), meta={"invalid": True}))
-    ctx.run_stream(cases, units=["canon", "lineend", "recon", "eofnl", "settings"], oracle=oracle)
+    # statements that belong to two logical lines (child of an `if` in one conditional-compilation
+    # pass, plain statement in the other) and multi-line literals followed by a call, both inside
+    # indented blocks, at wrap columns next to their line lengths: tokens decided twice
+    bt = []
+    for _ in range(ctx.n(250, 4000)):
+        p = gen.grammar_program(rng).text()
+        lines = p.split("\n")
+        idx = [i for i, l in enumerate(lines) if l.startswith("  ") and l.rstrip().endswith(";") and not l.lstrip().startswith(("end", "until"))]
+        for i in rng.sample(idx, min(len(idx), 2)):
+            ind = lines[i][:len(lines[i]) - len(lines[i].lstrip())]
+            lines[i] = ind + "{$ifdef X}\n" + ind + "if Cond then\n" + ind + "{$else}\n" + ind + "Other;\n" + ind + "{$endif}\n" + lines[i]
+        bt.append(("\n".join(lines), gen.random_cfg(rng)))
+    for _ in range(ctx.n(250, 4000)):
+        lit = "'''\n" + rng.choice(["", "  "]) + "foo\n'''"
+        call = rng.choice([".Format(%s, %s)", ".Replace(%s, %s)", " + Foo(%s, %s)"]) % ("B" + "b" * rng.randrange(3, 22), "C" + "c" * rng.randrange(3, 22))
+        body = "  " * rng.randrange(1, 4)
+        bt.append(("procedure P;\nbegin\n" + body + "A := " + lit + call + ";\nend;\n", gen.random_cfg(rng)))
+    cases += boundary_width_cases(ctx, bt, "twice-decided")
+    wf_cases = [c for c in cases if c.meta.get("wellformed")]
+    other = [c for c in cases if not c.meta.get("wellformed")]
+    ctx.run_stream(wf_cases, units=["canon", "lineend", "invariants", "recon", "eofnl", "settings"], oracle=oracle)
+    ctx.run_stream(other, units=["canon", "lineend", "recon", "eofnl", "settings"], oracle=oracle)
     ctx.hypotheses["H-W1 canon_fmt (final per-token data: line start => no spaces; continuation => <= 1 space, no indentation; <= 1 blank line)"] = "unit canon on every trace"
     ctx.hypotheses["no content ends in a blank before a line break"] = "unit lineend on every trace (classes F3/F7 matched against known findings)"
 
@@ -483,7 +504,25 @@ def run_c09(ctx):
     run_pairs(ctx, pairs, compare)
     # correspondence of reconstruct under both settings, on a traced sample
     sample = [ctx.case("trace", t, gen.random_cfg(rng)) for t, _, _ in pool[:: max(1, len(pool) // ctx.n(300, 3000))]]
-    ctx.run_stream(sample, units=["recon", "settings"])
+    # multi-line literals in every terminator style, also already at their final indentation: the
+    # interior terminators of every eligible literal must come out as the configured line ending
+    for _ in range(ctx.n(1200, 20000)):
+        lit = gen_literal(rng)
+        cfg = gen.random_cfg(rng)
+        sample.append(ctx.case("literal", rng.choice(CONTEXTS) % lit, cfg))
+    lits = [c for c in sample if c.meta["stream"] == "literal"][:: 2]
+    res0 = ctx.run_stream([ctx.case("literal-pre", c.text, c.cfg) for c in lits], mode="fmt")
+    for r in res0.values():
+        if r.out is not None:
+            try:
+                t = r.out.decode("utf-8")
+            except UnicodeDecodeError:
+                continue
+            # the formatted text, fed back under the opposite line ending and with its endings swapped
+            flip = tuple(r.case.cfg[:6]) + (1 - r.case.cfg[6],)
+            sample.append(ctx.case("literal-formatted", t, flip))
+            sample.append(ctx.case("literal-formatted", t.replace("\r\n", "\n") if "\r\n" in t else t.replace("\n", "\r\n"), r.case.cfg))
+    ctx.run_stream(sample, units=["recon", "settings", "mlstring", "mlvalue"])
     ctx.hypotheses["H-W2 (the wrapper's plan does not depend on the newline string)"] = "lf/crlf configuration pairs on the real formatter"
 
 
@@ -890,6 +929,11 @@ def run_c13(ctx):
         for v in (w, w.upper(), w.capitalize(), w + "x", "&" + w, "." + w, w[:-1]):
             cases.append(ctx.case("word", "x " + v + " ;", gen.DEFAULT_CFG))
     ctx.run_stream(cases, units=["lex", "tokok"])
+    # the model lexer is the reference scanner of the property: a disagreement is a failing input
+    byid = {c.id: c for c in cases}
+    for cid, unit, detail in list(ctx.corr_diffs):
+        if unit == "lex" and cid in byid:
+            ctx.fail("scan_differs_from_reference", byid[cid], "real lexer and verified reference lexer disagree: " + detail[:300])
     # (2) both identifier scans, through the hooks
     f = os.path.join(build.CACHE, "run", "ident_%d.txt" % os.getpid())
     os.makedirs(os.path.dirname(f), exist_ok=True)
@@ -994,7 +1038,7 @@ def run_c02(ctx):
         cases.append(ctx.case("literal", rng.choice(CONTEXTS) % lit, gen.random_cfg(rng)))
     for text, kind, wrap in wellformed_variants(ctx, ctx.n(250, 5000), per=ctx.n(2, 4)):
         cases.append(ctx.case(kind, text, gen.random_cfg(rng, wrap=rng.choice([wrap, 20, 40, 80, 120, 1000000]))))
-    ctx.run_stream(cases, units=["spacing", "relex", "lex", "comment", "lower", "recon"])
+    ctx.run_stream(cases, units=["spacing", "generics", "invariants", "relex", "lex", "comment", "lower", "recon"])
     ctx.hypotheses["plan_ok: break after line comments / unterminated literals, inline comments never broken off"] = "re-scan oracle on every case (comment kinds are part of the compared token kinds)"
     ctx.hypotheses["lex_one_local (each sub-lexer depends on its own bytes plus a follow set)"] = "re-scan with the verified model lexer and with the real lexer on every case"
 
@@ -1105,7 +1149,8 @@ def run_c03(ctx):
 
 PROPS["C02"] = Spec(
     coq_targets=["theories/Properties/C02.v"], module="Properties.C02",
-    theorems=["C02_spacing_only_counters", "C02_gap_local", "C02_spacing_separates"],
+    theorems=["C02_spacing_only_counters", "C02_gap_local", "C02_spacing_separates", "C02_generics_only_chevrons", "C02_generics_total",
+              "C02_invariant_characterised", "C02_break_after_line_ender", "C02_accepted_layout_breaks_after_line_comment"],
     run=run_c02,
     rule="well-formed seeds and grammar programs and their variants (relayout, inline/own-line comment insertion, conditional-directive wrapping, CRLF, keyword case) x random configurations incl. narrow widths",
     explanation="Theorem (reflection over all 183 generated token types): whenever TokenSpacing leaves no space between two tokens the pair is glue-safe for the lexer, or the input had no blank there, or it is one of 23 listed pairs impossible in well-formed code. The spacing model is diffed against the real rule on every case. The oracle re-scans the real output with the verified model lexer and with the real lexer and compares kinds and text of every token with the final token vector (so only the documented normalisations can differ).",
